@@ -1,5 +1,5 @@
 (* Properties/C10.v — C10: absolute and idle session timeouts. *)
-From AS Require Import Base.Str Oidc.Types Store.Spec Store.Memory Store.Redis Proofs.PStore.
+From AS Require Import Base.Str Oidc.Types Store.Spec Store.Memory Store.Redis Proofs.PStore Proofs.PRedis.
 
 (* the memory store's rule: a session is alive exactly while now <= created+abs and now <= last use+idle *)
 Theorem C10_memory_rule_band :
@@ -49,6 +49,14 @@ Theorem C10_memory_store_follows_its_rule :
   forall abs idle h, snd (mrun abs idle [] h) = snd (arun (alive_mem abs idle) aempty h).
 Proof. intros. apply mem_refines_spec. intros sid. exact I. Qed.
 Print Assumptions C10_memory_store_follows_its_rule.
+
+(* and so does the Redis store under ITS rule (EXPIREAT in whole seconds), for every operation sequence with
+   non-decreasing positive clock readings and the values the handler stores *)
+Theorem C10_redis_store_follows_its_rule :
+  forall abs idle parses h t0, clock_ok parses t0 h ->
+    snd (rrun abs idle parses [] h) = map ROk (snd (arun (alive_redis abs idle) aempty h)).
+Proof. intros. eapply redis_refines_spec_from_empty; eassumption. Qed.
+Print Assumptions C10_redis_store_follows_its_rule.
 
 Example C10_example_absolute_not_extended_by_activity :
   let t := {| t_id := "j"; t_access := ""; t_refresh := ""; t_expiry := 0 |} in
